@@ -798,6 +798,7 @@ _dispatch_timer_unote_disarm(dispatch_timer_source_refs_t dt,
 	_dispatch_timer_heap_remove(&dth[tidx], dt);
 	_dispatch_timers_heap_dirty(dth, tidx);
 	_dispatch_unote_state_clear_bit(dt, DU_STATE_ARMED);
+	DISPATCH_VERIF_PROBE("tm_disarm", dt, tidx, 0);
 	_dispatch_timer_du_debug("disarmed", dt);
 }
 
@@ -816,6 +817,8 @@ _dispatch_timer_unote_arm(dispatch_timer_source_refs_t dt,
 		_dispatch_timer_du_debug("armed", dt);
 	}
 	_dispatch_timers_heap_dirty(dth, tidx);
+	DISPATCH_VERIF_PROBE("tm_arm", dt, tidx, dt->dt_timer.target);
+	DISPATCH_VERIF_PROBE("tm_arm_iv", dt, dt->dt_timer.interval, dt->du_timer_flags);
 }
 
 #define DISPATCH_TIMER_UNOTE_TRACE_SUSPENSION 0x1
@@ -1050,12 +1053,14 @@ _dispatch_timers_run(dispatch_timer_heap_t dth, uint32_t tidx,
 		DISPATCH_TIMER_ASSERT(dr->dt_timer.target, !=, 0, "missing target");
 
 		now = _dispatch_time_now_cached(DISPATCH_TIMER_CLOCK(tidx), nows);
+		DISPATCH_VERIF_PROBE("tm_run", dr, dr->dt_timer.target, now);
 		if (dr->dt_timer.target > now) {
 			// Done running timers for now.
 			break;
 		}
 
 		if (dr->du_timer_flags & DISPATCH_TIMER_AFTER) {
+			DISPATCH_VERIF_PROBE("tm_fire_after", dr, 2, 0);
 			_dispatch_timer_unote_disarm(dr, dth); // +2 is consumed by _merge_evt()
 			_dispatch_wlh_release(_dispatch_unote_wlh(dr));
 			_dispatch_unote_state_set(dr, DU_STATE_UNREGISTERED);
@@ -1095,6 +1100,7 @@ _dispatch_timers_run(dispatch_timer_heap_t dth, uint32_t tidx,
 					DISPATCH_TIMER_DISARMED_MARKER, relaxed);
 		} else {
 			pending = _dispatch_timer_unote_compute_missed(dr, now, 0) << 1;
+			DISPATCH_VERIF_PROBE("tm_fire", dr, pending, dr->dt_timer.target);
 			if (_dispatch_timer_unote_needs_rearm(dr,
 					DISPATCH_TIMER_UNOTE_TRACE_SUSPENSION)) {
 				// _dispatch_source_merge_evt() consumes a +2 which we transfer
@@ -1187,6 +1193,9 @@ _dispatch_timers_program(dispatch_timer_heap_t dth, uint32_t tidx,
 	dispatch_timer_delay_s range;
 
 	range = _dispatch_timers_get_delay(dth, tidx, qos, nows);
+	DISPATCH_VERIF_PROBE("tm_prog", &dth[tidx], tidx, range.delay);
+	DISPATCH_VERIF_PROBE("tm_prog_now", &dth[tidx], tidx,
+			nows->nows[DISPATCH_TIMER_CLOCK(tidx)]);
 	if (range.delay == 0) {
 		_dispatch_timers_heap_dirty(dth, tidx);
 	}
